@@ -222,7 +222,12 @@ def solve_g(ctx):
             return None
     stale = {'_Strain__' + k: 'STALE' for k in ('G', 'strain', 'invariant1', 'invariant2', 'invariant3', 'angularvelocity', 'rotation', 'nye')}
     attrs = dict(stale)
-    attrs.update({'p_vectors': [symarray('pa', (3, 3), real=True), symarray('pb', (3, 3), real=True)], 'system': Sys(), 'neighbors': NL(), '_Strain__theta_max': sp.Integer(27)})
+    # one reference set per atom, stored as a regular (natoms, 3, 3) float array (what set_p_vectors stores when every atom has the same number of reference vectors)
+    class _PV(np.ndarray):
+        _am_attrs = {}
+    pv_ = np.stack([symarray('pa', (3, 3), real=True), symarray('pb', (3, 3), real=True)]).view(_PV)
+    pv_._am_attrs = {'dtype': 'float64'}
+    attrs.update({'p_vectors': pv_, 'system': Sys(), 'neighbors': NL(), '_Strain__theta_max': sp.Integer(27)})
     obj = SymObj(cls, attrs, 'self')
     for variant, kw in (('solve_G()', {}), ('solve_G(theta_max=30)', {'theta_max': sp.Integer(30)})):
         calls.clear()
@@ -243,7 +248,7 @@ def solve_g(ctx):
         ok = len(m) == 2 and all(is_zero(c[3] - sp.cos(th * sp.pi / 180)) for c in m)
         ctx.ob('SOLVE-G', loc, '%s: the angle limit passed to the matching is cos(theta_max) with theta_max in degrees (%s)' % (variant, th), ok, str([c[3] for c in m]), node=fn, key=variant + ' cos')
         if not kw:
-            ok = len(m) == 2 and m[0][1] is attrs['p_vectors'][0] or (len(m) == 2 and equal(np.asarray(m[0][1], dtype=object), attrs['p_vectors'][0], deep=False))
+            ok = len(m) == 2 and equal(np.asarray(m[0][1], dtype=object), np.asarray(attrs['p_vectors'][0], dtype=object), deep=False) and equal(np.asarray(m[1][1], dtype=object), np.asarray(attrs['p_vectors'][1], dtype=object), deep=False)
             ok = ok and m[0][2] == ('q', 0) and m[1][2] == ('q', 1) and [(c[1], c[2]) for c in calls if c[0] == 'dvect'] == [(0, ('neigh', 0)), (1, ('neigh', 1))]
             ctx.ob('SOLVE-G', loc, 'atom i is matched with its own reference vectors p[i] and its own current neighbour separations dvect(i, neighbors[i])', bool(ok), node=fn, key='own vectors')
             ls = [c for c in calls if c[0] == 'lstsq']
